@@ -88,7 +88,7 @@ def gen_case(rng, idx):
         kind, spec = "mtl", {"features": feats, "losses": losses, "retain": True}
     else:
         prog, feats, losses, tasks, shared = ajlib.gen_mtl(rng, overlap=(mode == 5))
-        nested = any(a != b and prog.reach(a, b) for a in feats for b in feats)
+        nested = ajlib.entangled(prog, feats)
         kind, spec = "mtl", {"features": feats, "losses": losses, "retain": nested or mode == 5}
     leaves = [t for t in range(prog.n()) if prog.is_leaf[t] and prog.req[t]]
     case = {"id": idx, "prog": prog.to_json(), "kind": kind, "old": ajcheck.rand_old(rng, prog, leaves, 0.3)}
